@@ -111,6 +111,21 @@ CLAIMED = {
             'floats as reals; trading timeframes 3m and 5m (15m data route), 2-3 symbolic minutes per session with range < 20 and exits >= 30 '
             'from the entry; templates T1, T3; spot and futures',
             TECH),
+    'C01': ('DESIGN.md C01',
+            'Bounded solver-based product check: run A on X[:t]+flat tail and run B on X[:t]+Y[t:] (Y fresh symbols) on one path; a recording '
+            'strategy and the Order wrappers log everything observable; z3 proves every log entry with time <= X[t].timestamp equal in both '
+            'runs (by transitivity: equal for any two tails), in the step and the fast simulator.',
+            'floats as reals; sessions of 3-10 minutes, 1-3 symbolic minutes in the prefix and in the tail; templates T1, T1tp, T5, T7; '
+            'routes 1m, 3m, 5m, 1m+5m data, two symbols; warm-up 3',
+            TECH),
+    'C11': ('DESIGN.md C11',
+            'Bounded solver-based check: every path runs in a freshly forked process; the probe call runs in a fresh process (a further '
+            'fork of the pristine process) and again after another session A (symbolic fee/balance; other exchange name, spot/futures, '
+            'leverage, routes, warm-up, fast mode, aborted by a hook exception or InsufficientMargin); z3 proves fills, trades (pnl, fee), '
+            'account type and balances of the later probe equal to the fresh one, and the arguments unmodified.',
+            'floats as reals; 6-candle concrete sessions with symbolic account parameters; one prior session; metrics not observed here '
+            '(C16); a fresh process is modelled by a fork of a process that imported jesse but never ran a session',
+            TECH),
 }
 
 NOT_YET = {}
